@@ -351,10 +351,9 @@ PROPS.update({
         "quick": ["U-SIG", "U-PK", "U-SK", "U-SKF", "U-KEYGEN", "U-NTT-POLY", "U-NTT-CORE", "U-BATCHINV", "U-TAB", "U-FELT"],
         "thorough": ["U-FELT-INV"],
         "undecided_clauses": ["equality of the recomputed G after a secret-key round trip: proved is that from_bytes never fails after the field checks and returns G with G*f == g*F in Z_q[X]/(X^n+1) (U-KEYGEN, from_bytes_tail); that this G equals the generated one needs the NTRU equation over Z and |G| < q/2 (C04, undecided there); from_b0 and the balanced-value / sign plumbing of b0 stay outside the verified text",
-                              "that key generation keeps f, g, F inside the encodable range (F8: ntru_gen never checks; no failing seed is known, so this is undecided, not a finding)",
                               "'the decoded key signs messages that verify' reduces to C01"],
         "assumptions": [],
-        "explanation": "Partial claim. Proved: signatures encode to exactly 666 / 1280 bytes and from_bytes(to_bytes(sig)) == sig for every signature object (Kani, complete); public keys encode to exactly 897 / 1793 bytes in the specification's layout and decode back to the same key (Verus, unbounded, theorems thm_pk_strict / thm_pk_roundtrip); secret keys whose f, g, F are in the encodable range encode to exactly 1281 / 2305 bytes in the specification's layout and f, g, F are recovered by from_bytes (Verus, unbounded; per-field codec by Kani). Not decided: that key generation stays in the encodable range (F8), equality of the recomputed G, and the assumed tail of from_bytes.",
+        "explanation": "Partial claim. Proved: signatures encode to exactly 666 / 1280 bytes and from_bytes(to_bytes(sig)) == sig for every signature object (Kani, complete); public keys encode to exactly 897 / 1793 bytes in the specification's layout and decode back to the same key (Verus, unbounded, theorems thm_pk_strict / thm_pk_roundtrip); secret keys whose f, g, F are in the encodable range encode to exactly 1281 / 2305 bytes in the specification's layout and f, g, F are recovered by from_bytes (Verus, unbounded; per-field codec by Kani); ntru_gen returns only polynomials in that range (Verus on the statement slice of ntru_gen: the four rejection tests added by fix ec40539 — defect F8 was found by this postcondition). from_bytes never fails after the field checks and recomputes a G with G*f == g*F mod (q, X^n+1). Not decided: that this G equals the generated one (needs the NTRU equation over Z, C04), from_b0 and the sign / balanced-value plumbing of b0.",
         "level_text": "Partial: proof-level for signature and public key, field-level for the secret key; see undecided clauses.",
         "level_note": "Assumed: BitVec/chunks model, Kani/CBMC, Verus/Z3. The secret-key clauses listed as undecided are not claimed.",
         "technique": "Kani full-domain contract harnesses + Verus contracts on extracted real functions",
@@ -384,9 +383,9 @@ PROPS.update({
         "undecided_clauses": ["that the vector produced by the floating-point pipeline of sign (t = (c,0)B^-1, ffSampling, (t-z)B, float norm test, rounding) is a short point of the right coset, i.e. the norm hypothesis of thm_c01_accept: not expressible without real-arithmetic reasoning over a 512-point complex FFT",
                               "thread interleavings: sign takes &SecretKey and the crate has no unsafe / static mut / interior mutability (scanned by the check), SecretKey: Send + Sync is a compile-time obligation of the replay crate; no contract states more"],
         "assumptions": [],
-        "explanation": "Partial claim. Proved: (1) verifier side, theorem thm_c01_accept over the contracts of compress and verify: for every message, salt, public key h and in-range vector v, a signature whose body is compress(v) and whose (c - v*h centred, v) has squared norm <= floor(beta^2) is accepted, and (thm_c01_only) nothing else is; (2) sign's plumbing (U-SIGN): the body sign returns is the Algorithm-17 encoding of one vector into exactly 625 / 1239 bytes, with the salt that was hashed. Not decided: that the sampler's vector satisfies the norm hypothesis.",
+        "explanation": "Partial claim. Proved: (1) verifier side, theorem thm_c01_accept over the contracts of compress and verify: for every message, salt, public key h and in-range vector v, a signature whose body is compress(v) and whose (c - v*h centred, v) has squared norm <= floor(beta^2) is accepted, and (thm_c01_only) nothing else is; (2) sign's plumbing (U-SIGN): the body sign returns is the Algorithm-17 encoding of one vector into exactly 625 / 1239 bytes, with the salt that was hashed; that vector is the rounded inverse transform of the second component of a pair that left the norm-rejection loop, and a pair leaves that loop only if its squared norm, as sign computes it in doubles, is not greater than the variant's floor(beta^2) (doubles uninterpreted: which comparison against which constant, not its numerical meaning). Not decided: that the double-precision norm of the sampled pair bounds the integer norm verify recomputes (the norm hypothesis of thm_c01_accept).",
         "level_text": "Partial: acceptance is reduced to one hypothesis about the floating-point sampler's output, which this family cannot decide.",
-        "level_note": "Detects changes to verify, the codec, hashing, the salt / compress plumbing of sign and the bound constants; blind to changes inside the lattice sampler.",
+        "level_note": "Detects changes to verify, the codec, hashing, the salt / compress plumbing of sign, the norm-rejection test of sign and the bound constants; blind to changes inside the lattice sampler (ffSampling, the basis arithmetic).",
         "technique": "Verus: theorem over the postconditions of compress and verify + contract on a statement slice of sign",
     },
 })
